@@ -27,9 +27,11 @@ from halmos.utils import EVM
 
 
 def mk_options(**over):
+    from halmos.config import ConfigSource
+
     args = default_config()
     if over:
-        args = args.with_overrides(source="verif", **over)
+        args = args.with_overrides(ConfigSource.command_line, **over)
     return args
 
 
